@@ -24,7 +24,7 @@ import asyncio
 import random
 import sys
 from ipaddress import IPv4Address, IPv6Address, _BaseAddress
-from typing import TYPE_CHECKING, Dict, List, Optional, Set, Union, cast
+from typing import TYPE_CHECKING, Dict, List, Optional, Set, Tuple, Union, cast
 
 from .._cache import DNSCache
 from .._dns import (
@@ -114,9 +114,13 @@ def instance_name_from_service_info(info: "ServiceInfo", strict: bool = True) ->
     return info.name[: -len(service_name) - 1]
 
 
-def _created_of(record: DNSRecord) -> float_:
-    """Return the time a cached record was last received."""
-    return record.created
+def _created_of(record: DNSRecord) -> Tuple[float_, float_]:
+    """Return the time a cached record was last received.
+
+    A record that a cache flush marked to expire carries the time of the
+    record that replaced it and a TTL of one second, it sorts before that one.
+    """
+    return (record.created, record.ttl)
 
 
 class ServiceInfo(RecordUpdateListener):
